@@ -62,6 +62,7 @@ class Effects:
         self.param_calls = []     # (param attr, method, line, via)
         self.returns = []         # (expr src, line)
         self.definitely_written = set()
+        self.alias = {}           # attribute -> constructor-parameter attribute it was bound to by `self.a = self.p` (same object, no copy)
 
 
 def _self_attr(n):
@@ -106,6 +107,8 @@ def analyse_method(src, cls, mname, helpers, eff=None, seen=None, top=True, writ
                             written |= w2
                     if _self_attr(v) and f.attr in MUTATORS:
                         eff.param_calls.append((v.attr, f.attr, n.lineno, "direct"))
+                        if v.attr in eff.alias:          # the attribute holds the SAME object as a constructor parameter (assigned without clone/copy)
+                            eff.param_calls.append((eff.alias[v.attr], f.attr, n.lineno, f"via the alias self.{v.attr} = self.{eff.alias[v.attr]}"))
                 if isinstance(f, ast.Name) and f.id in helpers:
                     hfile, hcls = helpers[f.id]
                     hsrc = Source.load(hfile)
@@ -145,8 +148,13 @@ def analyse_method(src, cls, mname, helpers, eff=None, seen=None, top=True, writ
                 return written, True
             if isinstance(s, ast.If):
                 visit_expr(s.test, written)
+                a0 = dict(eff.alias)
                 w1, t1 = visit_block(s.body, set(written))
+                a1, eff.alias = dict(eff.alias), dict(a0)
                 w2, t2 = visit_block(s.orelse, set(written))
+                a2 = dict(eff.alias)
+                # after the join an alias may hold if either branch made it (possible effect: conservative for F2 reporting of later calls)
+                eff.alias = {**a1, **a2} if not (t1 or t2) else (a2 if t1 else a1)
                 if t1 and t2:
                     return written, True
                 written = w2 if t1 else w1 if t2 else (w1 & w2)
@@ -172,6 +180,11 @@ def analyse_method(src, cls, mname, helpers, eff=None, seen=None, top=True, writ
                 if s.value is not None:
                     visit_expr(s.value, written)
                 targets = s.targets if isinstance(s, ast.Assign) else [s.target]
+                if isinstance(s, ast.Assign) and len(targets) == 1 and _self_attr(targets[0]):
+                    if _self_attr(s.value) and isinstance(s.value.ctx, ast.Load):
+                        eff.alias[targets[0].attr] = eff.alias.get(s.value.attr, s.value.attr)      # self.a = self.p: alias (branch-local: dropped at joins below)
+                    else:
+                        eff.alias.pop(targets[0].attr, None)
                 for t in targets:
                     for x in ast.walk(t):
                         if _self_attr(x) and isinstance(x.ctx, ast.Store):
